@@ -94,41 +94,50 @@ namespace Pistache::Tcp
                 handleNotify();
             }
 
-            else if (entry.isReadable())
+            else
             {
-                auto tag = entry.getTag();
-                if (isPeerFd(tag))
+                const bool readable = entry.isReadable();
+                if (readable)
                 {
-                    auto& peer = getPeer(tag);
-                    handleIncoming(peer);
-                }
-                else if (isTimerFd(tag))
-                {
-                    auto it      = timers.find(static_cast<decltype(timers)::key_type>(tag.value()));
-                    auto& entry_ = it->second;
-                    handleTimer(std::move(entry_));
-                    timers.erase(it->first);
-                }
-            }
-            else if (entry.isWritable())
-            {
-                auto tag = entry.getTag();
-                auto fd  = static_cast<Fd>(tag.value());
-
-                {
-                    Guard guard(toWriteLock);
-                    auto it = toWrite.find(fd);
-                    if (it == std::end(toWrite))
+                    auto tag = entry.getTag();
+                    if (isPeerFd(tag))
                     {
-                        throw std::runtime_error(
-                            "Assertion Error: could not find write data");
+                        auto& peer = getPeer(tag);
+                        handleIncoming(peer);
+                    }
+                    else if (isTimerFd(tag))
+                    {
+                        auto it      = timers.find(static_cast<decltype(timers)::key_type>(tag.value()));
+                        auto& entry_ = it->second;
+                        handleTimer(std::move(entry_));
+                        timers.erase(it->first);
                     }
                 }
 
-                reactor()->modifyFd(key(), fd, NotifyOn::Read, Polling::Mode::Edge);
+                // A descriptor can be reported readable *and* writable in the same
+                // event. With edge-triggered polling the writable edge is not
+                // reported again, so it must be handled too (unless the peer has
+                // just been removed while its input was handled).
+                if (entry.isWritable() && (!readable || isPeerFd(entry.getTag())))
+                {
+                    auto tag = entry.getTag();
+                    auto fd  = static_cast<Fd>(tag.value());
 
-                // Try to drain the queue
-                asyncWriteImpl(fd);
+                    {
+                        Guard guard(toWriteLock);
+                        auto it = toWrite.find(fd);
+                        if (it == std::end(toWrite))
+                        {
+                            throw std::runtime_error(
+                                "Assertion Error: could not find write data");
+                        }
+                    }
+
+                    reactor()->modifyFd(key(), fd, NotifyOn::Read, Polling::Mode::Edge);
+
+                    // Try to drain the queue
+                    asyncWriteImpl(fd);
+                }
             }
         }
     }
